@@ -21,7 +21,7 @@ pub fn real_table(cyc: &Cycle) -> Vec<(i64, i32)> {
 
 fn tables(cyc: &Cycle, thorough: bool) -> Vec<Vec<(i64, i32)>> {
     let mut out = vec![];
-    let max_len = if thorough { 5 } else { 4 };
+    let max_len = if thorough { 10 } else { 4 };
     for len in 1..=max_len {
         for signs in 0..(1u32 << len) {
             for &first in &[0i64, 1, 78_796_800] {
@@ -250,7 +250,7 @@ fn sweep_huge_table(ctx: &Ctx, thorough: bool) -> (u64, u64) {
 pub fn sweep_wide_offsets(ctx: &Ctx, thorough: bool) -> Tally {
     let cyc = ctx.cyc;
     let sp = D28 - 1;
-    let len = if thorough { 6 } else { 5 };
+    let len = if thorough { 8 } else { 5 };
     let mut work = vec![];
     for signs in 0..(1u32 << len) {
         for w in [5_000_000i32, 2 * sp as i32 + 7, 3 * sp as i32 - 1] {
@@ -391,7 +391,7 @@ pub fn run(args: &Args) -> i32 {
     rec.add(fw.0 + tl.searches, fw.1 + tl.nontrivial);
     rec.add_model(fw.0 + tl.searches, fw.0 + tl.searches, fw.0 + tl.searches);
     rec.digest("leap", tl.digest);
-    rec.set_rule("leap tables: all +-1 sign sequences of length 1..4 (5 thorough) x 3 first-record times x 3 spacings (constructor minimum and above) + the real 27-record table + long tables + one-signed tables of 2,419,499 records at the minimal spacing (accumulated correction >= spacing) + all sign sequences of length 5 (6) with offsets more than two spacings apart; probe zones with one (or two adjacent) transitions at counts record-3..record+3, record+-1h, far; states = (table, transition count, UTC second of a +-40 s walk / local reading); forward lookup and search compared with the two-scale clock model. non-trivial = walk instants adjacent to the switch and searches whose expected result is not one valid instant");
+    rec.set_rule("leap tables: all +-1 sign sequences of length 1..4 (10 thorough) x 3 first-record times x 3 spacings (constructor minimum and above) + the real 27-record table + long tables + one-signed tables of 2,419,499 records at the minimal spacing (accumulated correction >= spacing) + all sign sequences of length 5 (8) with offsets more than two spacings apart; probe zones with one (or two adjacent) transitions at counts record-3..record+3, record+-1h, far; states = (table, transition count, UTC second of a +-40 s walk / local reading); forward lookup and search compared with the two-scale clock model. non-trivial = walk instants adjacent to the switch and searches whose expected result is not one valid instant");
     rec.set_exhaustive(true);
     rec.outcome("switch");
     rec.outcome("gap");
